@@ -227,7 +227,54 @@ func VerifHamtReaderWellFormed() {
 	node, err := bh.open(false)
 	verifrt.Assert(err == nil, "reify-ok")
 	verifrt.Assert(len(bh.st.Loads) == 0, "lazy-reify-fetches-nothing")
-	switch verifrt.Choose(3) {
+	iterateAll := func() {
+		seen := map[string]int{}
+		n := 0
+		for it := node.MapIterator(); !it.Done(); n++ {
+			verifrt.Assert(n <= len(bh.entries)+len(bh.shards)+1, "iter:terminates")
+			k, v, err := it.Next()
+			verifrt.Assert(err == nil, "iter:no-error")
+			ks, _ := k.AsString()
+			seen[ks]++
+			l, _ := v.AsLink()
+			for _, e := range bh.entries {
+				if e.name == ks {
+					verifrt.Assert(l == e.link, "iter:link-of-entry")
+				}
+			}
+		}
+		for _, e := range bh.entries {
+			verifrt.Assert(seen[e.name] == 1, "iter:each-entry-once")
+		}
+		verifrt.Assert(n == len(bh.entries), "iter:count")
+	}
+	lookupAll := func() {
+		for _, e := range bh.entries {
+			v, err := node.LookupByString(e.name)
+			verifrt.Assert(err == nil && v != nil, "lookup:member-found")
+			if err == nil {
+				got, _ := v.AsLink()
+				verifrt.Assert(got == e.link, "lookup:member-link")
+			}
+		}
+	}
+	switch verifrt.Choose(5) {
+	case 3: // one node used for enumeration first, then by-name lookups of every member
+		if verifrt.Choose(2) == 0 {
+			iterateAll()
+		} else {
+			verifrt.Assert(node.Length() == int64(len(bh.entries)), "length=entries")
+		}
+		lookupAll()
+		verifrt.Reach("enumerate-then-lookup")
+	case 4: // one node used for a by-name lookup first (any member), then enumerated
+		e := bh.entries[verifrt.Choose(len(bh.entries))]
+		v, err := node.LookupByString(e.name)
+		verifrt.Assert(err == nil && v != nil, "lookup:member-found")
+		iterateAll()
+		verifrt.Assert(node.Length() == int64(len(bh.entries)), "length=entries")
+		lookupAll()
+		verifrt.Reach("lookup-then-enumerate")
 	case 0: // member lookups, cold cache each (fresh node per lookup is not needed: check load sets cumulatively)
 		ei := verifrt.Choose(len(bh.entries))
 		e := bh.entries[ei]
@@ -237,10 +284,11 @@ func VerifHamtReaderWellFormed() {
 		verifrt.Assert(got == e.link, "lookup:member-link")
 		// loads == shards on the path, in root-to-leaf order
 		want := bh.path[e.name]
-		verifrt.Assert(len(bh.st.Loads) == len(want), "lookup:loads-only-path-shards")
+		first := firstRequests(bh.st) // which blocks, and the order of their first requests (not how often)
+		verifrt.Assert(len(first) == len(want), "lookup:loads-only-path-shards")
 		for i := range want {
-			if i < len(bh.st.Loads) {
-				verifrt.Assert(bh.st.Loads[i] == want[i], "lookup:loads-path-in-order")
+			if i < len(first) {
+				verifrt.Assert(first[i] == want[i], "lookup:loads-path-in-order")
 			}
 		}
 		// all entry points agree
@@ -275,10 +323,11 @@ func VerifHamtReaderWellFormed() {
 			want = append(want, bh.shardKeyOf(hShapes[which], next, &slot))
 			cur = next
 		}
-		verifrt.Assert(len(bh.st.Loads) == len(want), "lookup:loads-only-path-shards")
+		first := firstRequests(bh.st)
+		verifrt.Assert(len(first) == len(want), "lookup:loads-only-path-shards")
 		for i := range want {
-			if i < len(bh.st.Loads) {
-				verifrt.Assert(bh.st.Loads[i] == want[i], "lookup:loads-path-in-order")
+			if i < len(first) {
+				verifrt.Assert(first[i] == want[i], "lookup:loads-path-in-order")
 			}
 		}
 		verifrt.Reach("non-member")
@@ -311,15 +360,16 @@ func VerifHamtReaderWellFormed() {
 		verifrt.Assert(n == len(bh.entries), "iter:count")
 		_, _, err := it.Next()
 		verifrt.Assert(err != nil, "iter:overread-errors")
-		// load order: DFS link order, each shard once
-		verifrt.Assert(len(bh.st.Loads) == len(bh.shards), "order:each-shard-once")
+		// first requests: every shard, in DFS link order
+		first := firstRequests(bh.st)
+		verifrt.Assert(len(first) == len(bh.shards), "order:every-shard-requested")
 		for i := range bh.shards {
-			if i < len(bh.st.Loads) {
-				verifrt.Assert(bh.st.Loads[i] == bh.shards[i], "order:depth-first-link-order")
+			if i < len(first) {
+				verifrt.Assert(first[i] == bh.shards[i], "order:depth-first-link-order")
 			}
 		}
 		verifrt.Assert(node.Length() == int64(len(bh.entries)), "length=entries")
-		verifrt.Assert(len(bh.st.Loads) == len(bh.shards), "length:served-from-cache")
+		verifrt.Assert(len(firstRequests(bh.st)) == len(bh.shards), "length:no-foreign-block")
 		verifrt.Reach("iterate")
 	}
 	verifrt.Reach("end")
@@ -346,10 +396,12 @@ func VerifHamtPreload() {
 		verifrt.Reach("missing")
 	} else {
 		verifrt.Assert(err == nil && node != nil, "preload-ok")
-		verifrt.Assert(len(bh.st.Loads) == len(bh.shards), "order:each-shard-once")
+		// every shard is fetched, no entry target is (C06); first requests in DFS link order (C20)
+		first := firstRequests(bh.st)
+		verifrt.Assert(len(first) == len(bh.shards), "order:every-shard-requested-and-nothing-else")
 		for i := range bh.shards {
-			if i < len(bh.st.Loads) {
-				verifrt.Assert(bh.st.Loads[i] == bh.shards[i], "order:depth-first-link-order")
+			if i < len(first) {
+				verifrt.Assert(first[i] == bh.shards[i], "order:depth-first-link-order")
 			}
 		}
 		verifrt.Assert(node.Length() == int64(len(bh.entries)), "length=entries")
